@@ -318,6 +318,11 @@ fn worker(args: &[String]) -> i32 {
 		}
 		let blocked = out.blocked;
 		agg.add(&out);
+		gen::FEATURES.with(|f| {
+			for name in f.borrow().iter() {
+				*agg.probes.entry(format!("gen:{name}")).or_insert(0) += 1;
+			}
+		});
 		let h = case_hash(&cfg, &ops);
 		agg.distinct.insert(h);
 		if nontrivial(&scenario, &out) {
@@ -865,8 +870,14 @@ fn own_reported_len(exit: i32, seen: &HashSet<String>) -> u64 {
 
 fn expected_probes(scenario: &str) -> &'static [&'static str] {
 	match scenario {
-		"reindex" => &["reindex_started", "reindex_batch", "reindex_drop_index"],
-		"crash" | "power" => &["log_replayed_at_open"],
+		"reindex" => &["reindex_started", "reindex_batch", "reindex_drop_index", "gen:big_growth"],
+		"struct" => &["gen:slot_reuse_prefix", "gen:log_rotation_prefix"],
+		"crash" | "power" => &["log_replayed_at_open", "gen:log_rotation_prefix", "gen:index_growth_swarm", "gen:edge_keys"],
+		"tree" => &["gen:tree_wide_node", "gen:tree_wide_sharing", "gen:tree_count_ops_repeated_in_tx", "gen:tree_unrepresentable_alone"],
+		"kv" | "sizes" | "btree" => &["gen:slot_reuse_prefix", "gen:edge_keys"],
+		"ioerr" | "drop" => &["gen:log_rotation_prefix", "gen:index_growth_swarm"],
+		"logfuzz" => &["logfuzz_field_overwritten", "gen:index_growth_swarm"],
+		"treelock" => &["gen:treelock_prefix"],
 		_ => &[],
 	}
 }
